@@ -580,7 +580,7 @@ SPECS = {
         "profiles": ["release"],
         "uses_model": True,
         "rule": "programs with 1..3 printers (framed and plain, incl. print-relative-path / print-file-fid) x 2..3 logical scanner threads x 1..2 records each (+ stress: 6 printers, 4 threads x 8 records): the emitted text is executed in the model runtime, each thread's lock/write/unlock steps recorded, and interleavings explored by exhaustive DFS within a budget, then random + priority schedules until no new interleaving for 200 schedules; monitors: lockset (Eraser), frame/line decoder at quiescence with per-thread order, deadlock. A display issued while the thread holds no mutex is modelled as two steps (ports are not thread-safe). A third of the actions sit behind a condition on the record; constant formats and the deprecated implicit-print node are in the action pool. distinct_nontrivial = distinct (configuration, interleaving) pairs in which the writers of one port switch between threads at least twice (the threads' records really interleave); schedules with a blocked thread are counted separately.",
-        "assumptions": ["a display call is the atom of port output; a thread's step sequence does not depend on the schedule (policies read no shared mutable state)"],
+        "assumptions": ["a display call made under a mutex is the atom of port output, one made while no mutex is held is two steps (ports are not thread-safe); a thread's step sequence does not depend on the schedule (policies read no shared mutable state)"],
     },
     "C17": {
         "profiles": [],
